@@ -37,7 +37,13 @@ type c13case struct {
 
 // c13program: readerfunc -> map -> [CACHE] -> ... ; returns the spec, the cache node index.
 func c13program(c c13case, dir string) (Spec, int) {
-	src := PNode{Op: "readerfunc", Shards: c.Shards, Rows: c.Rows, Out: []string{"int", "string"}, Salt: c.Seed, Mod: 30, Chunks: []int{50, 3}}
+	// the source ends its shards either with a separate (0, EOF) call or with rows returned
+	// together with EOF, by shard count
+	chunks := []int{50, 3}
+	if c.Shards%2 == 0 {
+		chunks = []int{40, -1 << 20}
+	}
+	src := PNode{Op: "readerfunc", Shards: c.Shards, Rows: c.Rows, Out: []string{"int", "string"}, Salt: c.Seed, Mod: 30, Chunks: chunks}
 	mp := PNode{Op: "map", In: []int{0}, Out: []string{"int", "int64"}, Src: []int{0, -1}, Salt: c.Seed + 1, Mod: 7}
 	cache := PNode{Op: c.Kind, Path: "vfault://" + dir + "/c"}
 	nodes := []PNode{src}
